@@ -5,7 +5,7 @@ for d in /tmp/mutant-C*/out/*; do
   [ -f $d/eval.txt ] || continue
   P=$(basename $(dirname $(dirname $d)) | sed 's/mutant-//'); N=$(basename $d)
   mkdir -p seeded/$P-$N
-  cp $d/patch.diff $d/demo.rs $d/meta.json $d/eval.txt seeded/$P-$N/ 2>/dev/null
+  cp $d/patch.diff $d/demo.rs $d/meta.json $d/eval.txt seeded/$P-$N/ 2>/dev/null; cp $d/reeval.txt seeded/$P-$N/ 2>/dev/null
 done
 python3 - <<'PY'
 import glob,os,json,re
